@@ -4,6 +4,7 @@
     feistel x seed bits          → y
     shuf x n seed                → y | none            (none = iteration budget exhausted)
     img n seed                   → h <fnv64 of the image shuffleIndex(0..n-1)>
+    fimg bits seed               → h <fnv64 of the image feistel(0..2^bits-1)>
     imgl n seed                  → y0 y1 … y(n-1)
     batches n                    → s-e s-e …           (tuning.Batches, real constants)
     chunks s e                   → s-e s-e …           (tuning.Chunks of batch [s,e))
@@ -65,6 +66,29 @@ def doOpen (st : St) (epoch start stop : Int) (bufLen : Nat) (full : Bool) : Str
       if full then return s!"ok {k} " ++ ",".intercalate out.toList
       return s!"ok {k} {h.toNat}"
 
+/-- A whole epoch without materialising the delivered lines (for files with ≥ 50 000 lines): the same
+    model functions (`batches`, `chunks`, `openChunk`, `Chunk.read`) driven in the order of `epochLines`. -/
+def epochStream (st : St) (m : Array LineAddr) (epoch : Int) (bufLen : Nat) : String := Id.run do
+  let mut h := fnvInit
+  let mut cnt := 0
+  for r in (batches m.size).flatMap chunks do
+    match openChunk m epoch r.start r.stop with
+    | none => return "fail"
+    | some c0 =>
+      let mut c := c0
+      let mut fin := false
+      for _ in [0:c0.chunkLines.size + 1] do
+        if fin then break
+        let (res, c') := c.read st.file bufLen
+        c := c'
+        match res with
+        | .eof => fin := true
+        | .panic => return "fail"
+        | .line l =>
+          h := fnvLine h l
+          cnt := cnt + 1
+  return s!"ok {cnt} {h.toNat}"
+
 def answer (st : St) (w : List String) : IO (St × String) := do
   match w with
   | ["feistel", x, seed, bits] =>
@@ -76,6 +100,10 @@ def answer (st : St) (w : List String) : IO (St × String) := do
   | ["img", n, seed] =>
     let n := n.toNat!; let seed := seed.toNat!
     let h := (List.range n).foldl (fun h x => fnvNat h (shuffleIndex x n seed)) fnvInit
+    return (st, s!"h {h.toNat}")
+  | ["fimg", bits, seed] =>
+    let bits := bits.toNat!; let seed := seed.toNat!
+    let h := (List.range (2 ^ bits)).foldl (fun h x => fnvNat h (feistel x seed bits)) fnvInit
     return (st, s!"h {h.toNat}")
   | ["imgl", n, seed] =>
     let n := n.toNat!; let seed := seed.toNat!
@@ -105,6 +133,7 @@ def answer (st : St) (w : List String) : IO (St × String) := do
     match st.manifest with
     | none => return (st, "nofile")
     | some m =>
+      if m.size ≥ 50000 then return (st, epochStream st m epoch.toInt! bufLen.toNat!) else
       match epochLines st.file bufLen.toNat! m epoch.toInt! with
       | none => return (st, "fail")
       | some ls => return (st, s!"ok {ls.length} {(ls.foldl fnvLine fnvInit).toNat}")
